@@ -367,11 +367,38 @@ static void park_sched(int point)
     }
 }
 
+// ---- clock interposition: every clock read of a non-main thread (the search thread) is a schedule point.  VERIF_PARK="9:nth:ms"
+// parks the search thread right AFTER it has read the clock for the nth time (it reports PARKED, the driver sends `stop`, the thread
+// then goes on with the stale time value): code that decides about stopping from a clock read must not lose a stop that lands there.
+static std::thread::id g_main_thread;
+static std::atomic<int> g_clock_reads{0};
+static int g_clock_nth = -1, g_clock_ms = 0;
+namespace std { namespace chrono { inline namespace _V2 {
+steady_clock::time_point steady_clock::now() noexcept
+{
+    timespec ts;
+    clock_gettime(CLOCK_MONOTONIC, &ts);
+    time_point t(duration(std::chrono::seconds(ts.tv_sec) + std::chrono::nanoseconds(ts.tv_nsec)));
+    if (g_clock_nth > 0 && std::this_thread::get_id() != g_main_thread)
+    {
+        int n = ++g_clock_reads;
+        if (n == g_clock_nth)
+        {
+            fprintf(stderr, "PARKED point=clock nth=%d\n", n);
+            timespec req{g_clock_ms / 1000, (g_clock_ms % 1000) * 1000000L};
+            nanosleep(&req, nullptr);
+        }
+    }
+    return t;
+}
+}}}
+
 #include "cppdrv_search.inc"
 
 int main(int argc, char** argv)
 {
     std::ios::sync_with_stdio(true);
+    g_main_thread = std::this_thread::get_id();
     move_bitboards::init();
     zobrist::init();
     bitbase::init();
@@ -385,7 +412,8 @@ int main(int argc, char** argv)
         if (const char* e = getenv("VERIF_PARK"))
         {
             sscanf(e, "%d:%d:%d", &g_park_point, &g_park_nth, &g_park_ms);
-            verif::sched_fn = park_sched;
+            if (g_park_point == 9) { g_clock_nth = g_park_nth; g_clock_ms = g_park_ms; g_park_point = -1; }
+            else verif::sched_fn = park_sched;
         }
         Uci u; u.loop();
         // give a detached search thread the chance to finish printing before the process exits
